@@ -798,6 +798,12 @@ func c19Trees(c *mon.Ctx) {
 			nlFile = gen.Pick(r, []string{"new\nline", "\n", "sub/x\ny", "z\n"})
 		}
 		zseed := r.Uint64()
+		// sometimes one more entry that is a symbolic link to one of the files: it is an entry of the tree
+		// like any other (listed, and hashed through the link)
+		linkOf := -1
+		if len(set) > 0 && r.IntN(5) == 0 {
+			linkOf = r.IntN(len(set))
+		}
 		if !c.Want(id) {
 			continue
 		}
@@ -809,6 +815,20 @@ func c19Trees(c *mon.Ctx) {
 				c.Class("tree:not-materialisable-skipped")
 				c.Sample("tree-not-materialisable", 2, err.Error())
 				return
+			}
+			if linkOf >= 0 {
+				tgt := set[linkOf]
+				ln := tgt.Name + ".lnk"
+				exists := false
+				for _, f := range set {
+					if f.Name == ln || strings.HasPrefix(f.Name, ln+"/") {
+						exists = true
+					}
+				}
+				if !exists && os.Symlink(filepath.Base(filepath.FromSlash(tgt.Name)), filepath.Join(tree, filepath.FromSlash(ln))) == nil {
+					set = append(set, refhash.File{Name: ln, Data: tgt.Data})
+					c.Class("tree:with-symlink-to-file")
+				}
 			}
 			if emptyDirs {
 				os.MkdirAll(filepath.Join(tree, "empty-dir", "nested"), 0o777)
